@@ -30,6 +30,8 @@ type Variant struct {
 	Models      map[string]reflect.Type
 	Abstract    map[string]reflect.Type
 	SetBlobHook func(func(op, s string) error)
+	// SetMethodHook installs what the method-backed fields of hand-written models return.
+	SetMethodHook func(func(ctx context.Context, typ, field string) (*string, error))
 }
 
 // CtxMode says how resolvers react to a cancelled context once released.
@@ -142,6 +144,11 @@ func New(w *core.World, v *Variant, plan *refexec.Plan) *Uni {
 			if _, ok := u.bind[key]; ok {
 				continue
 			}
+			if m, isMethod := reflect.PointerTo(mt).MethodByName(strings.ToUpper(fd.Name[:1]) + fd.Name[1:]); isMethod && m.Type.NumIn() == 2 {
+				// method-backed (takes a context): called like a resolver, answered by the plan
+				u.bind[key] = refexec.Binding{Resolver: true, Nilable: true}
+				continue
+			}
 			sf, ok := mt.FieldByNameFunc(func(n string) bool { return strings.EqualFold(n, fd.Name) })
 			if !ok {
 				panic("uni: no struct field for " + key)
@@ -149,7 +156,55 @@ func New(w *core.World, v *Variant, plan *refexec.Plan) *Uni {
 			u.bind[key] = refexec.Binding{Nilable: nilable(sf.Type)}
 		}
 	}
+	if v.SetMethodHook != nil {
+		v.SetMethodHook(u.method)
+	}
 	return u
+}
+
+// method answers a method-backed field of a hand-written model (string-valued) from the plan.
+func (u *Uni) method(ctx context.Context, typ, field string) (*string, error) {
+	fc := graphql.GetFieldContext(ctx)
+	path := fc.Path().String()
+	if u.OnCall != nil {
+		u.OnCall(ctx, "res", path)
+	}
+	key := path
+	if u.KeyPrefix != nil {
+		key = u.KeyPrefix(ctx) + path
+	}
+	u.W.Logf("call", key, "")
+	if u.Park {
+		if _, killed := u.W.Park("res", key, ctx).(core.Kill); killed {
+			return nil, ErrKilled
+		}
+	}
+	u.W.Logf("return", key, "")
+	if u.Ctx == ReturnCtxErr && ctx.Err() != nil {
+		return nil, ctx.Err()
+	}
+	switch u.Plan.Resolver(path, true) {
+	case refexec.KError:
+		u.raise(path, u.Plan.ErrMsg(path))
+		return nil, errors.New(u.Plan.ErrMsg(path))
+	case refexec.KPanic:
+		u.PanicsThrown.Add(1)
+		u.raise(path, u.Plan.PanicMsg(path))
+		panic(u.Plan.PanicMsg(path))
+	case refexec.KNull:
+		return nil, nil
+	case refexec.KAddErrNull:
+		u.raise(path, u.Plan.ErrMsg(path))
+		graphql.AddError(ctx, errors.New(u.Plan.ErrMsg(path)))
+		if u.Park {
+			if _, killed := u.W.Park("res-post", key, ctx).(core.Kill); killed {
+				return nil, ErrKilled
+			}
+		}
+		return nil, nil
+	}
+	s := u.Plan.Scalar(path, "String").S
+	return &s, nil
 }
 
 func (u *Uni) Binding(objType, field string) refexec.Binding {
